@@ -1,7 +1,9 @@
 """C03 — operator macros agree with hy.pyops and Python: agreement of sibling tables."""
+CANON = True
+
 import ast
 
-from .. import compq, hysexp, pyq
+from .. import pm as pmx, compq, hysexp, pyq
 from ..pysrc import Unfoldable, dotted, fold, norm
 
 R = compq.RM
@@ -163,14 +165,16 @@ def check(ctx, src):
         ctx.check(first.head() == "if" and first.items[2].src() == str(v), "T-IDENT", f"{name}|nullary pyops body", f"hy.pyops.{name} returns {first.items[2].src() if first.head() == 'if' else '?'} for no arguments", PY, d.line, detail=str(v))
     ctx.check(set(nd) == {n for n, r in shadow.items() if r["func"].name == "compile_maths_expression" and pattern_arity(r["pattern"])[0] == 0}, "T-IDENT", "nullary|domain",
               "the identity table does not cover exactly the operators that accept zero arguments", R, null.lineno, witness="(|) raises KeyError inside the compiler", detail=str(sorted(nd)))
-    un1 = pyq.contains(mx, lambda n: isinstance(n, ast.If) and norm(n.test) == "len(args) == 1")
-    ctx.need(un1 is not None, "macro unary arm not found")
-    t = [norm(s) for s in un1.body]
-    ctx.check(len(un1.body) == 1 and isinstance(un1.body[0], ast.If) and norm(un1.body[0].test) == "root == '/'" and norm(un1.body[0].body[0]) == "args = [Integer(1).replace(expr), args[0]]",
-              "T-IDENT", "/|unary", "unary / must be rewritten to (/ 1 x) with the integer 1", R, un1.lineno, witness="(/ x) with a huge int differs from Python's 1/x (float numerator)", detail="[Integer(1), x]")
-    pm = un1.body[0].orelse[0] if isinstance(un1.body[0], ast.If) and un1.body[0].orelse else None
-    okpm = isinstance(pm, ast.If) and norm(pm.test) == "root in ('+', '-')" and "{'+': ast.UAdd, '-': ast.USub}[root]()" in norm(pm.body[0]) and norm(pm.orelse[-1]) == "return compiler.compile(args[0])"
-    ctx.check(okpm, "T-IDENT", "+,-|unary", "unary + / - must be UAdd / USub and every other unary case the argument itself", R, un1.lineno, detail="UAdd/USub; else unchanged")
+    # unary cases, identified by what they build and decided by the conditions on the path to it
+    rec = pmx.find(mx, "args = [Integer(1).replace(expr), args[0]]")
+    ctx.check(rec is not None and pyq.has_atoms(rec, mx, ["len(args) == 1", "root == '/'"], about="root"), "T-IDENT", "/|unary", "unary / must be rewritten to (/ 1 x) with the integer 1, exactly for one argument of `/`",
+              R, mx.lineno, witness="(/ x) with a huge int differs from Python's 1/x (float numerator)", detail="[Integer(1), x]")
+    uop = pyq.contains(mx, lambda n: isinstance(n, ast.Call) and dotted(n.func) == "asty.UnaryOp")
+    tbl = pyq.contains(mx, lambda n: isinstance(n, ast.Dict) and {getattr(k, "value", None) for k in n.keys} == {"+", "-"})
+    same = [r for r in ast.walk(mx) if isinstance(r, ast.Return) and norm(r.value) == "compiler.compile(args[0])"]
+    okpm = (uop is not None and tbl is not None and fold(tbl) == {"+": "ast.UAdd", "-": "ast.USub"} and pyq.has_atoms(uop, mx, ["len(args) == 1", "root != '/'", "root in ('+', '-')"], about="root")
+            and len(same) == 1 and pyq.has_atoms(same[0], mx, ["len(args) == 1", "root != '/'", "root not in ('+', '-')"], about="root"))
+    ctx.check(okpm, "T-IDENT", "+,-|unary", "unary + / - must be UAdd / USub and every other unary case the argument itself", R, mx.lineno, detail="UAdd/USub; else unchanged")
     cmpf = comp.rm.func("compile_compare_op_expression")
     one = pyq.contains(cmpf, lambda n: isinstance(n, ast.If) and norm(n.test) == "len(args) == 1")
     ctx.check(one is not None and norm(one.body[0]) == "return compiler.compile(args[0]) + asty.Constant(expr, value=True)", "T-IDENT", "comparison|unary", "a one-argument comparison must evaluate its argument and be True", R, cmpf.lineno, detail="compile(arg) + True")
